@@ -35,6 +35,7 @@ from src.core.base import BaseLintContext, BaseLintRule
 from src.core.constants import HEADER_SCAN_LINES, IgnoreDirective, Language
 from src.core.linter_utils import project_relative_path
 from src.core.types import Severity, Violation
+from src.linter_config.directive_markers import has_same_line_ignore_directive
 from src.linter_config.ignore import get_ignore_parser
 from src.linter_config.rule_matcher import rule_matches
 
@@ -437,7 +438,7 @@ class StatelessClassRule(BaseLintRule):  # thailint: ignore[srp,dry]
         Returns:
             True if line has applicable ignore directive
         """
-        if "thailint:" not in line or "ignore" not in line:
+        if not has_same_line_ignore_directive(line):
             return False
 
         # General ignore (no rule specified)
